@@ -995,7 +995,7 @@ func c19RunCase(t *testing.T, c c19Case, r *vp.Rec) (err error) {
 		}
 	}
 	stallInfo := ""
-	kuDeadlock := false
+	kuDeadlock, finStuck := false, false
 	if stalled {
 		// Signature of the key-update deadlock: both endpoints are in the middle of a
 		// 1-RTT key update and packets fail authentication.
@@ -1022,6 +1022,27 @@ func c19RunCase(t *testing.T, c c19Case, r *vp.Rec) (err error) {
 			}
 		}
 		stallInfo += diag
+		// Signature of the lost-FIN stall: some sender has all data acknowledged, its
+		// FIN recorded as sent but unacknowledged, and nothing in flight.
+		for _, d := range x.dirs {
+			if d == nil {
+				continue
+			}
+			x.mu.Lock()
+			ws := x.accepted[d.from][d.id]
+			x.mu.Unlock()
+			if ws == nil {
+				continue
+			}
+			ws.outgate.lock()
+			finSent := ws.outclosed.state() == sentValSent && (ws.outacked.isrange(0, ws.out.end) || ws.out.end == 0)
+			ws.outUnlock()
+			inflight := -1
+			x.conn[d.from].runOnLoop(ctx, func(now time.Time, c *Conn) { inflight = c.loss.cc.bytesInFlight })
+			if finSent && inflight == 0 {
+				finStuck = true
+			}
+		}
 	}
 	var freezeErr error
 	if frozen {
@@ -1043,6 +1064,11 @@ func c19RunCase(t *testing.T, c c19Case, r *vp.Rec) (err error) {
 	if stalled && kuDeadlock && c19FindingOpen()[c19KeyUpdateFinding] {
 		r.Class("known-keyupdate-deadlock")
 		r.Discard("known finding " + c19KeyUpdateFinding)
+		return nil
+	}
+	if stalled && finStuck && c19FindingOpen()[c19LostFinFinding] {
+		r.Class("known-lost-fin-stall")
+		r.Discard("known finding " + c19LostFinFinding)
 		return nil
 	}
 	if len(x.misc) > 0 {
@@ -1184,7 +1210,10 @@ func c19Known(c c19Case) string {
 	return ""
 }
 
-const c19KeyUpdateFinding = "c19-keyupdate-deadlock"
+const (
+	c19KeyUpdateFinding = "c19-keyupdate-deadlock"
+	c19LostFinFinding   = "c19-truncated-probe-steals-fin"
+)
 
 // c19FindingOpen reports whether KNOWN_FINDINGS.json lists key as an open finding of C19.
 // (Spec.Known can only look at the case; the key-update deadlock depends on packet
